@@ -77,6 +77,21 @@ def hier_models(rnd, n):
                           'params': [{'name': 'name', 'type': 'str', 'required': True}, {'name': 'radius', 'type': 'int', 'required': True}]})
             specs.append({'name': 'PD', 'kind': 'obj', 'bases': ['PB'], 'extra': False, 'registered': True,
                           'params': [{'name': 'name', 'type': 'str', 'required': True}, {'name': 'side', 'type': 'int', 'required': True}]})
+        if rnd.random() < 0.4 or _ < 2:
+            # a subclass whose constructor drops a required attribute of its base, and a family in which base and subclass
+            # each have their own discriminating recogniser: documents may match ONLY the subclass
+            specs.append({'name': 'QB', 'kind': 'obj', 'bases': [], 'extra': False, 'registered': True,
+                          'params': [{'name': 'size', 'type': 'int', 'required': True}]})
+            specs.append({'name': 'QC', 'kind': 'obj', 'bases': ['QB'], 'extra': False, 'registered': True,
+                          'params': [{'name': 'label', 'type': 'str', 'required': True}]})
+            specs.append({'name': 'QD', 'kind': 'obj', 'bases': ['QC'], 'extra': False, 'registered': True,
+                          'params': [{'name': 'label', 'type': 'str', 'required': True}, {'name': 'deep', 'type': 'bool', 'required': True}]})
+            specs.append({'name': 'RB', 'kind': 'obj', 'bases': [], 'extra': False, 'registered': True,
+                          'params': [{'name': 'kind', 'type': 'str', 'required': True}],
+                          'recognize': [('attrvalue', 'kind', 'RB')]})
+            specs.append({'name': 'RC', 'kind': 'obj', 'bases': ['RB'], 'extra': False, 'registered': True,
+                          'params': [{'name': 'kind', 'type': 'str', 'required': True}],
+                          'recognize': [('attrvalue', 'kind', 'RC')]})
         yield specs
 
 
@@ -142,6 +157,18 @@ def tie(ctx, model_ok=True):
                         other = rnd.choice([x for x in ['PC', 'PD'] if x != cls])
                         node.tag = '!' + other
                         desc = 'directed-fail:conflicting-tag'
+                if 'QB' in names and rnd.random() < 0.3:
+                    cls = rnd.choice(['QB', 'QC', 'QD', 'RB', 'RC'])
+                    S = loadcase.S
+                    node = loadcase.M({'QB': [(S('size'), S('3', 'int'))], 'QC': [(S('label'), S('x'))],
+                                       'QD': [(S('label'), S('x')), (S('deep'), S('true', 'bool'))],
+                                       'RB': [(S('kind'), S('RB'))], 'RC': [(S('kind'), S('RC'))]}[cls])
+                    tyspec = ('class', 'RB' if cls in ('RB', 'RC') else rnd.choice(['QB', 'QB', 'QC'] if cls != 'QB' else ['QB']))
+                    if rnd.random() < 0.3:
+                        tyspec = rnd.choice([('optional', tyspec), ('list', 0, tyspec), ('union', ['int', tyspec])])
+                        if tyspec[0] == 'list':
+                            node = loadcase.Q([node])
+                    desc = 'directed:' + cls
                 try:
                     text = loadcase.serialize(node)
                 except Exception:      # noqa
@@ -212,10 +239,12 @@ def tie(ctx, model_ok=True):
         if c.desc.startswith('directed:'):
             want = c.desc.split(':')[1]
             if c.outcome[0] != 'ok':
-                return ('most-derived:error', f'{c.text!r} as PB (PB <- PC(radius), PD(side); PB has a custom recogniser): exactly one '
+                return ('most-derived:error', f'{c.text!r} as {c.tyspec} (PB <- PC(radius), PD(side), PB has a custom recogniser; '
+                                              f'QB(size) <- QC(label) <- QD(label, deep); RB, RC(RB) recognised by kind): exactly one '
                                               f'most-derived class matches ({want}) but load raised {c.outcome[1]!r}')
-            if type(c.outcome[1]).__name__ != want:
-                return ('most-derived:wrong-class', f'{c.text!r} as PB: most-derived match is {want}, loaded a {type(c.outcome[1]).__name__}')
+            got = c.outcome[1][0] if isinstance(c.outcome[1], list) and c.outcome[1] else c.outcome[1]
+            if type(got).__name__ != want:
+                return ('most-derived:wrong-class', f'{c.text!r} as {c.tyspec}: most-derived match is {want}, loaded a {type(got).__name__}')
         if c.desc.startswith('directed-fail') and c.outcome[0] == 'ok':
             return (c.desc.replace('directed-fail', 'tag-ignored'),
                     f'{c.text!r} as PB: the tag names an unknown or incompatible class, yet load returned a {type(c.outcome[1]).__name__}')
